@@ -42,3 +42,26 @@ Example atree_eq_mod_rn_nonvacuous :
     (ANode 1 [0;1;0;1;1;1] [ALeaf 1 [0;1;0;1;1;1;97]; ANode 2 [1;1;1;1;1;1] []; ANode 4 [1;1;1;1;1;1] []])
     (ANode 1 [0;1;0;2;1;2] [ALeaf 1 [0;1;0;1;1;1;97]]) = false.
 Proof. vm_compute. split; reflexivity. Qed.
+
+(* ------------------------------------------------------------------ *)
+(* Agreement of the two TABLES (unbounded): for one grammar, an LR table passing
+   sound_b/complete_b and a multi-action right-nulled table passing
+   sound_rn_b/complete_rn_b (both booleans are evaluated on the REAL LALR_PAGER and
+   LALR_RN tables of every generated grammar, gen/c07.py):
+   (1) if the LR machine returns Ok t, the nondeterministic machine over the GLR
+       table accepts, and EVERY accepting run returns exactly t (one solution);
+   (2) if some run of the GLR machine accepts with t, the LR machine returns Ok t;
+   (3) if the LR machine reports an error, no run of the GLR machine accepts.
+   NOT proved: that glr/parser.rs enumerates the runs of its table (exploration). *)
+From RV Require Import Model.LR Model.NLR Spec.Validators Spec.ValidatorsRN Proofs.Agree.
+
+Theorem tables_agree : forall g Tlr Trn w,
+  wf_grammar_b g = true -> sound_b g Tlr = true -> complete_b g Tlr = true ->
+  sound_rn_b g Trn = true -> complete_rn_b g Trn = true -> ~ In STOP w ->
+  (forall fuel t k, parse g Tlr false fuel w = Ok t k ->
+     nrun g Trn false (init 0 w) t (length w) /\
+     (forall t' k', nrun g Trn false (init 0 w) t' k' -> t' = t /\ k' = length w)) /\
+  (forall t k, nrun g Trn false (init 0 w) t k -> exists fuel, parse g Tlr false fuel w = Ok t (length w)) /\
+  (forall fuel k ex t' k', parse g Tlr false fuel w = Err k ex -> ~ nrun g Trn false (init 0 w) t' k').
+Proof. exact tables_agree_main. Qed.
+Print Assumptions tables_agree.
